@@ -18,6 +18,15 @@ PROPS = {
         explanation='Characterisation theorems for pause/unpause/cancel on an arbitrary invariant-satisfying environment, '
                     'cancelled-never-runs over all continuations; tie = lock-step on the real Environment.',
         assumptions=['asset_id=None calls (documented no-ops) are not modelled']),
+    'C09': dict(
+        vfile='Props/C09.v', ties=['Tie/TieEnv.v', 'Tie/TieRM.v'],
+        families=[('rm', 1500, 40000, 'small', 'large')],
+        rule='F_rm scenarios: pools, multi-resource/zero/negative/unknown reservations, partial and repeated releases, merges, waiting callbacks, '
+             'capacity changes, generated from VERIF_SEED (corpus/rm first); non-trivial = a successful multi-resource reservation, a successful release and >= 2 reservation objects; distinct by scenario text',
+        explanation='Pool invariant proved for every operation sequence (incl. callbacks during availability checks); per-operation specifications; '
+                    'tie = fact tables + lock-step on the real ResourceManager/ReservedResources.',
+        assumptions=['request dictionaries have distinct keys (Python dicts)', 'a.merge(a) is outside the property (two distinct reservations)',
+                     'ReservedResources.__del__ (a print) not modelled']),
 }
 
 LEVELS = {
@@ -32,9 +41,16 @@ LEVELS = {
              'idempotence, cancelled-never-runs over all continuations); tied to /repo by fact tables and lock-step correspondence.',
         design_ref='DESIGN.md section 8, C07', technique='Coq proof (operation characterisations + invariant over all continuations) + lock-step correspondence',
         note='Trusted: as C01. asset_id=None no-op calls not modelled.'),
+    'C09': dict(
+        text='Machine-checked Coq theorems on the model of resource_manager.py: pool invariant (usage = sum of outstanding reservations >= 0, capacity >= 0) '
+             'preserved by every operation, operation sequence and availability check; exact specifications of reserve / release / merge / add; '
+             'an operation that raises changes nothing; no over-commitment without an explicit capacity reduction. Three clauses were false of the original code '
+             '(coq/Findings/C09_refuted.v) and were repaired by fix: commits.',
+        design_ref='DESIGN.md section 8, C09', technique='Coq proof (state-machine invariant + operation specifications) + lock-step correspondence with ResourceManager',
+        note='Trusted: Coq kernel, pyfacts.py, extraction + OCaml driver, Python harness. Names are integers, amounts on the 1/8 grid.'),
 }
 
 NOT_APPLICABLE = [
     dict(property_id=p, reason='check under construction in this round (model layer not yet built); see DESIGN.md section 12 build order')
-    for p in ['C02', 'C03', 'C04', 'C05', 'C06', 'C08', 'C09', 'C10', 'C11', 'C12', 'C13', 'C14', 'C15', 'C16', 'C17', 'C18', 'C19', 'C20']
+    for p in ['C02', 'C03', 'C04', 'C05', 'C06', 'C08', 'C10', 'C11', 'C12', 'C13', 'C14', 'C15', 'C16', 'C17', 'C18', 'C19', 'C20']
 ]
